@@ -3,6 +3,7 @@ CONSTANTS
   Scenario = "stream"
   N = 3
   Cap = 16
+  Kinds <- KindsNone
   GenK = 3
 VIEW View
 INVARIANT Inv_NoLostWake
